@@ -209,11 +209,11 @@ func (w *W) BuildSchedProbe(gen string, ctor string, race bool) (string, error) 
 }
 
 // RunSched runs the controlled probe with a spec.
-func RunSched(bin string, spec SchedSpec, timeout time.Duration) (*SchedReport, error) {
+func RunSched(bin string, spec SchedSpec, timeout time.Duration, extraEnv ...string) (*SchedReport, error) {
 	in, _ := json.Marshal(spec)
 	cmd := exec.Command(bin)
 	cmd.Stdin = bytes.NewReader(in)
-	cmd.Env = append(os.Environ(), "GOMAXPROCS=1")
+	cmd.Env = append(append(os.Environ(), "GOMAXPROCS=1"), extraEnv...)
 	var stdout, stderr bytes.Buffer
 	cmd.Stdout = &stdout
 	cmd.Stderr = &stderr
